@@ -1,6 +1,6 @@
 """C05 -- stopping and resuming at any batch boundary does not change the result."""
 from ..persist import (rule_P0, rule_P9, rule_P1_P2, rule_P3, rule_P4_sampler, rule_P4_bound,
-                       rule_P5, rule_P8, rule_P11)
+                       rule_P5, rule_P8, rule_P11, rule_P14)
 from ..effects import rule_F3, rule_F4
 from ..memo import rule_K2
 
@@ -37,6 +37,7 @@ def run(ctx):
     from ..persist import rule_P12
     rule_P12(ctx, init, 'self')
     rule_P11(ctx)
+    rule_P14(ctx)
     rule_P8(ctx)      # the emulator's hyper-parameters survive the round trip
     rule_K2(ctx)      # cached values never outlive the state they were computed from
     rule_F3(ctx)
